@@ -119,6 +119,11 @@ def gen_client_ops(rng, thorough=False):
     scs.append({"id": len(scs), "kind": "client_ops", "queue": 16, "steps": steps, "tag": "c18-list-reuse"})
     for n in ((1, 2, 7, 16) if thorough else (1, 3)):
         scs.append({"id": len(scs), "kind": "client_queue", "queue": n, "steps": [], "tag": f"c18-queue-depth-{n}"})
+    # the retry strategy handed to rodbus_client_channel_create_tcp: min, 2 min, ... capped at max (start = min, count = max,
+    # timeout = number of attempts to observe)
+    for (mn, mx, att) in (((150, 500, 5), (300, 300, 3), (100, 1000, 5)) if thorough else ((150, 500, 5),)):
+        scs.append({"id": len(scs), "kind": "client_retry", "queue": 1, "steps": [{"op": "retry", "start": mn, "count": mx, "timeout": att}],
+                    "tag": f"c18-retry-strategy-{mn}-{mx}"})
     # (c) not connected / connection lost / after destroy
     steps = []
     for _ in range(4):
